@@ -93,6 +93,25 @@ def ref(spec):
     return M.ref_list(spec)
 
 
+_HEALTH = {}
+
+
+def healthy(spec):
+    """Does the operand on its own behave like the reference?  (A compound operation is only judged when
+    every operand does; defects of a single sweep are reported by the exhaustive single-sweep part.)"""
+    hit = _HEALTH.get(id(spec))
+    if hit is not None and hit[0] is spec:
+        return hit[1]
+    ok = not probe_single(spec)[0]
+    if id(spec) in _PINNED:
+        _HEALTH[id(spec)] = (spec, ok)
+    return ok
+
+
+def ops_healthy(case):
+    return all(healthy(o) for o in case["ops"])
+
+
 def ms(lst):
     return collections.Counter(M.freeze(d) for d in lst)
 
@@ -403,8 +422,25 @@ def simp_filtered(case):
 
 
 def simp_count(case):
-    needed = tuple(p for _, ps in case["pl"]["funcs"] for p in ps)
-    for s in M.simplify_spec(case["spec"], keep=needed):
+    roots, spec = case["roots"], case["spec"]
+    if case["mode"].endswith("sweep"):
+        yield dict(case, mode=case["mode"][:-5] + "list")
+    if len(roots) > 1:
+        for r in roots:
+            r2 = [x for x in roots if x != r]
+            yield dict(case, roots=r2, pl=M.pipeline_for(r2, case["variant"]))
+    ik = [k for k, _ in spec["items"]]
+    for r in roots:
+        if r not in ik:  # a constant / derived root argument is replaced by an item key
+            repl = [x for x in ik if x not in roots][:1]
+            if repl:
+                r2 = [repl[0] if x == r else x for x in roots]
+                yield dict(case, roots=r2, pl=M.pipeline_for(r2, case["variant"]))
+    if case["variant"]:
+        yield dict(case, variant=0, pl=M.pipeline_for(roots, 0))
+    for s in M.simplify_spec(spec, keep=tuple(roots)):
+        if case["mode"].startswith("pandas") and not M.ref_list(s):
+            continue
         yield dict(case, spec=s)
 
 
@@ -463,7 +499,7 @@ class Finder:
         self.cache = {}
         self.found = collections.OrderedDict()
 
-    def report(self, symptom, msg, case, probe, simplify, feat, text):
+    def report(self, symptom, msg, case, probe, simplify, feat, text, guard=None):
         self.v.count("failed_comparisons")
         ck = (symptom, "" if symptom == SIG26 else feat(case))
         if ck in self.cache:
@@ -471,7 +507,7 @@ class Finder:
             return
 
         def still(c):
-            return any(s == symptom for s, _ in probe(c)[0])
+            return (guard is None or guard(c)) and any(s == symptom for s, _ in probe(c)[0])
 
         small = M.shrink(case, still, simplify)
         sig = symptom if symptom == SIG26 else f"{symptom}/{feat(small)}"
@@ -481,10 +517,10 @@ class Finder:
             self.found[sig] = [msg2, {"repro": text(small), "generated_case": text(case)}, 0]
         self.found[sig][2] += 1
 
-    def check(self, case, probe, simplify, feat, text):
+    def check(self, case, probe, simplify, feat, text, guard=None):
         fails, info = probe(case)
         for symptom, msg in fails:
-            self.report(symptom, msg, case, probe, simplify, feat, text)
+            self.report(symptom, msg, case, probe, simplify, feat, text, guard)
         return fails, info
 
     def flush(self):
@@ -565,12 +601,13 @@ def run_single(desc, v, fd):
             avail += [o_ for o_, _ in spec["deriv"] or [] if o_ not in avail]
             nroots = min(len(avail), 1 + rng.randrange(3))
             roots = rng.sample(avail, nroots)
-            pl = M.pipeline_for(roots, rng.randrange(2))
+            variant = rng.randrange(2)
+            pl = M.pipeline_for(roots, variant)
             modes = ["sweep", "list"] if rng.random() < 0.5 else ["sweep"]
             if not spec["deriv"] and info["exp"] and rng.random() < 0.4:
                 modes.append("pandas-sweep" if rng.random() < 0.5 else "pandas-list")
             for mode in modes:
-                case = {"spec": spec, "pl": pl, "mode": mode}
+                case = {"spec": spec, "pl": pl, "mode": mode, "roots": roots, "variant": variant}
                 fd.check(case, probe_count, simp_count, feat_count, text_count)
                 v.count(f"count_sweep_checks[{mode}]")
     v.classes.add(f"single-n{len(lens)}")
@@ -578,14 +615,18 @@ def run_single(desc, v, fd):
 
 
 def _pair_ops(fd, v, ops, forms_product, forms_concat):
+    if not all(healthy(o) for o in ops):
+        v.count("compound_skipped_because_an_operand_alone_misbehaves")
+        return False
     for form in forms_product:
         case = {"ops": ops, "form": form}
-        fd.check(case, probe_product, simp_ops, feat_ops, text_ops)
+        fd.check(case, probe_product, simp_ops, feat_ops, text_ops, ops_healthy)
         v.count(f"product_checks[{len(ops)} operands,{form}]")
     for form in forms_concat:
         case = {"ops": ops, "form": form}
-        fd.check(case, probe_concat, simp_ops, feat_ops, text_ops)
+        fd.check(case, probe_concat, simp_ops, feat_ops, text_ops, ops_healthy)
         v.count(f"concat_checks[{form}]")
+    return True
 
 
 def run_pair(desc, v, fd):
@@ -637,7 +678,7 @@ def run_triple(desc, v, fd):
         opts = [OPTS[rng.randrange(8)] for _ in range(3)]
         if t % 4 == 0:  # make sure every ingredient of the MIDDLE operand is exercised on its own
             opts = [(0, 0, 0), OPTS[1 + (t // 4) % 7], (0, 0, 0)]
-        ops = [M.instantiate(pool[i][0], pool[i][1], o, M.ALPHABETS[p], rng, desc["seed"])
+        ops = [pin(M.instantiate(pool[i][0], pool[i][1], o, M.ALPHABETS[p], rng, desc["seed"]))
                for p, (i, o) in enumerate(zip(idx, opts))]
         form = "flat" if t % 3 else "nested"
         forms_c = [["add"], ["MultiSweep"], ["add-right"], ["combine"]][t % 4]
@@ -660,6 +701,7 @@ def run_case(desc):
     v = V()
     fd = Finder(v)
     _PINNED.clear()
+    _HEALTH.clear()
     if desc["kind"] == "single":
         keys, sample = run_single(desc, v, fd)
     elif desc["kind"] == "pair":
